@@ -1177,6 +1177,98 @@ fn run_case(cli: &Cli, shard: usize, case_idx: u64, rng: &mut Rng, r: &mut Repor
     r.count("case.done");
 }
 
+/// LDK style only: two channel ids whose LDK keys id carries the same 31-bit BIP32 derivation index (the keys id is
+/// an HKDF of the channel id, its first four bytes zeroed and the fifth masked; the index is its first eight bytes
+/// read big-endian).  The harness finds such a pair by its own HKDF over a few hundred thousand (peer, dbid) ids -
+/// a birthday search - and creates both channels in one signer, in either order: they are different channel ids, so
+/// every key must differ, and each channel's keys must be what they are in a signer that never saw the other one.
+/// If the harness's idea of the index were wrong the pair simply would not collide: no power, never a false alarm.
+fn ldk_index_collision_case(rng: &mut Rng, r: &mut Report) {
+    let seed = rng.bytes::<32>();
+    let mut peer = [2u8; 33];
+    peer[1..].copy_from_slice(&rng.bytes::<32>());
+    let seed_base = oracle::hkdf(&[], &seed, b"peer seed", 32);
+    let mut seen: std::collections::HashMap<u32, u64> = std::collections::HashMap::new();
+    let mut pair = None;
+    for dbid in 1..=400_000u64 {
+        let id = ChannelId::new_from_peer_id_and_oid(&peer, dbid);
+        let k = oracle::hkdf(id.as_slice(), &seed_base, b"per-peer seed", 32);
+        let index = u32::from_be_bytes([k[4] & 0x7f, k[5], k[6], k[7]]);
+        if let Some(d0) = seen.insert(index, dbid) {
+            pair = Some((d0, dbid, index));
+            break;
+        }
+    }
+    let (d1, d2, index) = match pair {
+        Some(p) => p,
+        None => {
+            r.count("ldk_index_collision.no_pair_found");
+            return;
+        }
+    };
+    r.count("ldk_index_collision.pairs");
+    let read = |order: &[u64]| -> Result<Vec<(u64, Vec<Vec<u8>>)>, String> {
+        let mut cfg = WorldCfg::regtest(seed);
+        cfg.style = KeyDerivationStyle::Ldk;
+        let world = World::new(cfg);
+        let mut out = vec![];
+        for d in order {
+            let node = world.node.clone();
+            let (id, _) = node.new_channel(*d, &peer, &node).map_err(|e| format!("new_channel: {:?}", e))?;
+            let v = node
+                .with_channel_base(&id, |b| {
+                    let k = b.get_channel_basepoints();
+                    let mut v = vec![
+                        k.funding_pubkey.serialize().to_vec(),
+                        k.revocation_basepoint.0.serialize().to_vec(),
+                        k.payment_point.serialize().to_vec(),
+                        k.delayed_payment_basepoint.0.serialize().to_vec(),
+                        k.htlc_basepoint.0.serialize().to_vec(),
+                    ];
+                    for n in 0..2u64 {
+                        v.push(b.get_per_commitment_point(n).map(|p| p.serialize().to_vec()).unwrap_or_default());
+                    }
+                    Ok(v)
+                })
+                .map_err(|e| format!("basepoints: {:?}", e))?;
+            out.push((*d, v));
+        }
+        Ok(out)
+    };
+    let runs = match report::catch(|| -> Result<_, String> { Ok((read(&[d1, d2])?, read(&[d2, d1])?, read(&[d1])?, read(&[d2])?)) }) {
+        Ok(Ok(x)) => x,
+        Ok(Err(e)) => {
+            r.note(&format!("ldk index collision case could not be run: {}", e));
+            r.count("ldk_index_collision.not_runnable");
+            return;
+        }
+        Err(p) => {
+            r.note(&format!("ldk index collision case panicked: {}", p.chars().take(120).collect::<String>()));
+            r.count("ldk_index_collision.not_runnable");
+            return;
+        }
+    };
+    let (both, both_rev, alone1, alone2) = runs;
+    let names = ["funding_pubkey", "revocation_basepoint", "payment_point", "delayed_payment_basepoint", "htlc_basepoint", "per_commitment_point(0)", "per_commitment_point(1)"];
+    let detail = |what: &str, field: &str| json!({"style": "ldk", "seed": hex::encode(seed), "peer": hex::encode(peer), "dbids": [d1, d2], "shared_derivation_index(harness's own HKDF)": index, "what": what, "field": field});
+    let get = |run: &Vec<(u64, Vec<Vec<u8>>)>, d: u64| run.iter().find(|x| x.0 == d).map(|x| x.1.clone()).unwrap_or_default();
+    for (i, name) in names.iter().enumerate() {
+        r.eval(1);
+        r.count("ldk_index_collision.fields_compared");
+        // different channel ids => different keys, in one signer
+        if get(&both, d1)[i] == get(&both, d2)[i] || get(&both_rev, d1)[i] == get(&both_rev, d2)[i] {
+            r.violation("keys:ldk:distinct-ids-same-key:ids-sharing-a-derivation-index", detail("two channels of one signer share this key", name));
+        }
+        // each channel's keys do not depend on the other channel or on the creation order
+        for (d, alone) in [(d1, &alone1), (d2, &alone2)] {
+            if get(&both, d)[i] != get(alone, d)[i] || get(&both_rev, d)[i] != get(alone, d)[i] {
+                r.violation("keys:ldk:key-depends-on-other-channels:ids-sharing-a-derivation-index", detail(&format!("the keys of dbid {} differ between a signer that has only this channel and one that also has the other", d), name));
+            }
+        }
+    }
+    r.distinct_hash(vls_verif::rng::fnv_str(&format!("ldk-collision:{}", index % 7)));
+}
+
 fn main() {
     let cli = Cli::parse("C18");
     report::install_quiet_panic_hook();
@@ -1191,7 +1283,12 @@ fn main() {
         for c in 0..cases {
             run_case(&cli, i, c, &mut rng, r, max_adv, run_len);
         }
+        // one pair of LDK-style channel ids sharing their derivation index per shard (quick) / four (thorough)
+        for _ in 0..(if quick { 1 } else { 4 }) {
+            ldk_index_collision_case(&mut rng, r);
+        }
     });
+    report.require("ldk_index_collision.pairs", 4);
     report.require("case.style.native", 5);
     report.require("case.style.ldk", 5);
     report.require("check.reread", 1000);
